@@ -19,6 +19,8 @@ replace: memrec_add_var
 backend: sat
 timeout: 200
 mem: 8
+native: mem
+native_includes: mem.c
 */
 /*@unit
 name: malloc.on.shape
@@ -30,6 +32,8 @@ replace: memrec_add_var
 backend: sat
 timeout: 600
 mem: 14
+native: mem
+native_includes: mem.c
 */
 /*@unit
 name: malloc.on.records
@@ -41,6 +45,8 @@ replace: memrec_add_var
 backend: sat
 timeout: 600
 mem: 14
+native: mem
+native_includes: mem.c
 */
 /*@unit
 name: malloc.on.nodup
@@ -52,6 +58,8 @@ replace: memrec_add_var
 backend: sat
 timeout: 600
 mem: 14
+native: mem
+native_includes: mem.c
 */
 /*@unit
 name: calloc.off
@@ -65,6 +73,8 @@ tier: B
 bound: element size fixed to 24 bytes (count symbolic up to 65535, table size symbolic)
 timeout: 200
 mem: 8
+native: mem
+native_includes: mem.c
 */
 /*@unit
 name: calloc.on.shape
@@ -78,6 +88,8 @@ tier: B
 bound: element size fixed to 24 bytes (count symbolic up to 65535, table size symbolic)
 timeout: 600
 mem: 14
+native: mem
+native_includes: mem.c
 */
 /*@unit
 name: calloc.on.records
@@ -91,6 +103,8 @@ tier: B
 bound: element size fixed to 24 bytes (count symbolic up to 65535, table size symbolic)
 timeout: 600
 mem: 14
+native: mem
+native_includes: mem.c
 */
 /*@unit
 name: calloc.on.nodup
@@ -104,6 +118,8 @@ tier: B
 bound: element size fixed to 24 bytes (count symbolic up to 65535, table size symbolic)
 timeout: 600
 mem: 14
+native: mem
+native_includes: mem.c
 */
 /*@unit
 name: free.off
@@ -115,6 +131,8 @@ replace: memrec_rem_var
 backend: sat
 timeout: 200
 mem: 8
+native: mem
+native_includes: mem.c
 */
 /*@unit
 name: realloc.off
@@ -126,6 +144,8 @@ replace: memrec_add_var, memrec_rem_var, memrec_chg_var
 backend: sat
 timeout: 200
 mem: 8
+native: mem
+native_includes: mem.c
 */
 /*@unit
 name: realloc.null.on.shape
@@ -137,6 +157,8 @@ replace: memrec_add_var, memrec_rem_var, memrec_chg_var
 backend: sat
 timeout: 600
 mem: 14
+native: mem
+native_includes: mem.c
 */
 /*@unit
 name: realloc.null.on.records
@@ -148,6 +170,8 @@ replace: memrec_add_var, memrec_rem_var, memrec_chg_var
 backend: sat
 timeout: 600
 mem: 14
+native: mem
+native_includes: mem.c
 */
 /*@unit
 name: realloc.null.on.nodup
@@ -159,6 +183,8 @@ replace: memrec_add_var, memrec_rem_var, memrec_chg_var
 backend: sat
 timeout: 600
 mem: 14
+native: mem
+native_includes: mem.c
 */
 /*@unit
 name: realloc.move.on.shape
@@ -170,6 +196,8 @@ replace: memrec_add_var, memrec_rem_var, memrec_chg_var
 backend: sat
 timeout: 600
 mem: 14
+native: mem
+native_includes: mem.c
 */
 /*@unit
 name: realloc.move.on.records
@@ -181,6 +209,8 @@ replace: memrec_add_var, memrec_rem_var, memrec_chg_var
 backend: sat
 timeout: 600
 mem: 14
+native: mem
+native_includes: mem.c
 */
 /*@unit
 name: realloc.move.on.nodup
@@ -192,6 +222,8 @@ replace: memrec_add_var, memrec_rem_var, memrec_chg_var
 backend: sat
 timeout: 600
 mem: 14
+native: mem
+native_includes: mem.c
 */
 /*@unit
 name: strdup.off
@@ -203,6 +235,8 @@ replace: spifmem_malloc
 backend: sat
 timeout: 200
 mem: 8
+native: mem
+native_includes: mem.c
 */
 /*@unit
 name: strdup.on.shape
@@ -214,6 +248,8 @@ replace: spifmem_malloc
 backend: sat
 timeout: 600
 mem: 14
+native: mem
+native_includes: mem.c
 */
 /*@unit
 name: strdup.on.records
@@ -225,6 +261,8 @@ replace: spifmem_malloc
 backend: sat
 timeout: 600
 mem: 14
+native: mem
+native_includes: mem.c
 */
 /*@unit
 name: strdup.on.nodup
@@ -236,6 +274,8 @@ replace: spifmem_malloc
 backend: sat
 timeout: 600
 mem: 14
+native: mem
+native_includes: mem.c
 */
 /*@unit
 name: free.on.cnt0
@@ -249,6 +289,8 @@ bound: tracker table of exactly 0 records (cnt <= 3 over the units free.on.cnt0.
 unwind: 8
 timeout: 400
 mem: 14
+native: mem
+native_includes: mem.c
 */
 /*@unit
 name: free.on.cnt1
@@ -262,6 +304,8 @@ bound: tracker table of exactly 1 records (cnt <= 3 over the units free.on.cnt0.
 unwind: 8
 timeout: 400
 mem: 14
+native: mem
+native_includes: mem.c
 */
 /*@unit
 name: free.on.cnt2
@@ -276,6 +320,8 @@ unwind: 8
 timeout: 400
 mem: 14
 quick: no
+native: mem
+native_includes: mem.c
 */
 /*@unit
 name: free.on.cnt3
@@ -290,6 +336,8 @@ unwind: 8
 timeout: 400
 mem: 14
 quick: no
+native: mem
+native_includes: mem.c
 */
 /*@unit
 name: realloc.zero.on.cnt0
@@ -303,6 +351,8 @@ bound: tracker table of exactly 0 records (cnt <= 2 over the units realloc.zero.
 unwind: 8
 timeout: 400
 mem: 14
+native: mem
+native_includes: mem.c
 */
 /*@unit
 name: realloc.zero.on.cnt1
@@ -316,6 +366,8 @@ bound: tracker table of exactly 1 records (cnt <= 2 over the units realloc.zero.
 unwind: 8
 timeout: 400
 mem: 14
+native: mem
+native_includes: mem.c
 */
 /*@unit
 name: realloc.zero.on.cnt2
@@ -330,6 +382,8 @@ unwind: 8
 timeout: 400
 mem: 14
 quick: no
+native: mem
+native_includes: mem.c
 */
 #include "vprelude.h"
 #include "env_memhash.h"
